@@ -10,6 +10,7 @@ use ldpc_toolbox::sparse::SparseMatrix;
 
 mod c06;
 mod c17;
+mod dec;
 
 fn main() {
     let args: Vec<String> = std::env::args().collect();
@@ -17,6 +18,8 @@ fn main() {
     let found = match what {
         "c06" => c06::search(),
         "c17" => c17::search(),
+        "c01" => dec::search_c01(),
+        "c10" => dec::search_c10(),
         _ => {
             eprintln!("unknown search {what}");
             std::process::exit(3);
